@@ -54,7 +54,71 @@ def _file_state(rng):
     return {"state": "bad", "bytes": content}
 
 
+def _unreadable_key_file(case, ctx, res):
+    """A valid key file that the process may write but not read (an unprivileged owner, mode 0200): every open must fail and
+    the file must keep its 32 bytes.  The scenario runs in a forked child that gives up root."""
+    cc = ctx.cc
+    path = os.path.join(ctx.dir, "wo.key")
+    key = bytes((case["r"] + 11 * i) % 256 for i in range(32))
+    with open(path, "wb") as fp:
+        fp.write(key)
+    uid = 65534
+    try:
+        os.chown(path, uid, uid)
+        os.chmod(path, 0o200)
+        cur = ctx.dir
+        while cur not in ("/", ""):
+            os.chmod(cur, os.stat(cur).st_mode | 0o011)  # the child has to reach the file
+            cur = os.path.dirname(cur)
+    except OSError:
+        res.count("unreadable_key_file_not_applicable")
+        return
+    r, w = os.pipe()
+    pid = os.fork()
+    if pid == 0:
+        code = b"?"
+        try:
+            os.close(r)
+            os.setgroups([])
+            os.setgid(uid)
+            os.setuid(uid)
+            try:
+                open(path, "rb").close()
+                code = b"readable"  # (privileges not dropped, or the file system ignores modes)
+            except OSError:
+                out = []
+                for _ in range(2):
+                    try:
+                        with cc.KeyFile(path) as k:
+                            k.encrypt(b"x", "xor")
+                        out.append("opened")
+                    except BaseException as exc:  # noqa: B902
+                        out.append(type(exc).__name__)
+                code = ",".join(out).encode()
+        finally:
+            os.write(w, code)
+            os._exit(0)
+    os.close(w)
+    outcome = os.read(r, 1000).decode()
+    os.close(r)
+    os.waitpid(pid, 0)
+    if outcome in ("readable", "?"):
+        res.count("unreadable_key_file_not_applicable")
+        return
+    res.count("unreadable_key_files_opened_by_their_unprivileged_owner")
+    with open(path, "rb") as fp:
+        now = fp.read()
+    if now != key:
+        res.viol("M-file", "unreadable-key-file-overwritten", "a valid 32-byte key file that its owner may write but not read was "
+                 "replaced by %d other bytes when a KeyFile was opened (outcomes of two opens: %s)" % (len(now), outcome))
+        return
+    if "opened" in outcome:
+        res.viol("M-file", "unreadable-key-file-opened", "a key file that cannot be read was opened without an error (%s)" % outcome)
+
+
 def generate(rng, ctx):
+    if rng.random() < 0.01:
+        return {"where": "unreadable", "r": rng.getrandbits(16), "init": {"state": "valid"}, "nobj": 1, "steps": []}
     where = weighted(rng, [(10, "ok"), (1, "parent_missing"), (1, "parent_is_file")])
     init = _file_state(rng) if where == "ok" else {"state": "absent"}
     nobj = rng.choice([1, 1, 2, 3])
@@ -164,6 +228,8 @@ def _read(path):
 def run(case, ctx, res):
     cc = ctx.cc
     where = case["where"]
+    if where == "unreadable":
+        return _unreadable_key_file(case, ctx, res)
     given = None
     fname = case.get("fname", "app.key")
     if "%" in fname:
